@@ -24,7 +24,7 @@ pub struct Case {
     /// value/anchor style: 0 plain, 1 two-field records, 2 device tables, 3 variation indices
     pub fmt: u8,
     /// first-glyph coverage style: 0 contiguous (format 2, one range), 1 every other glyph
-    /// (format 1), 2 runs of three with gaps (format 2, many ranges)
+    /// (format 1), 2 runs of five with gaps (format 2, many ranges)
     pub cov: u8,
     /// number of such lookups in the LookupList (each with its own glyph block)
     pub lookups: u8,
@@ -56,7 +56,7 @@ fn first_glyph(c: &Case, lookup: u32, i: u32) -> u16 {
     (match c.cov {
         0 => base + i,
         1 => base + 2 * i,
-        _ => base + i + i / 3,
+        _ => base + i + i / 5,
     }) as u16
 }
 fn second_glyph(_c: &Case, j: u32) -> u16 {
@@ -65,16 +65,19 @@ fn second_glyph(_c: &Case, j: u32) -> u16 {
 
 // --- spec-side encoders for the expected values (independent of write-fonts) --
 
-fn device_values(i: u32, j: u32) -> [i8; 3] {
-    [(i % 2) as i8, -((j % 3) as i8), 1]
+/// start size 9 + i % 5 and three 2-bit deltas from (31 i + 7 j) mod 64: 320 distinct device
+/// tables, so that a mix-up of device offsets between rules is visible
+fn device_values(i: u32, j: u32) -> (u16, [i8; 3]) {
+    let h = (31 * i + 7 * j) % 64;
+    (9 + (i % 5) as u16, [(h % 4) as i8 - 2, ((h / 4) % 4) as i8 - 2, ((h / 16) % 4) as i8 - 2])
 }
-fn expected_device(vals: [i8; 3]) -> Dev {
+fn expected_device((start, vals): (u16, [i8; 3])) -> Dev {
     // all values in -2..=1 => 2-bit format (1), eight per word, most significant first
     let mut word = 0u16;
     for (n, v) in vals.iter().enumerate() {
         word |= ((*v as u16) & 3) << (14 - 2 * n);
     }
-    Dev::Device { start: 9, end: 11, format: 1, words: vec![word] }
+    Dev::Device { start, end: start + 2, format: 1, words: vec![word] }
 }
 
 fn pair_values(c: &Case, lookup: u32, i: u32, j: u32) -> (Val, Val, w::ValueRecord, w::ValueRecord) {
@@ -95,7 +98,7 @@ fn pair_values(c: &Case, lookup: u32, i: u32, j: u32) -> (Val, Val, w::ValueReco
         }
         2 => {
             let dv = device_values(i, j);
-            w1 = w1.with_x_advance_device(wl::Device::new(9, 11, &dv));
+            w1 = w1.with_x_advance_device(wl::Device::new(dv.0, dv.0 + 2, &dv.1));
             e1.dev[2] = Some(expected_device(dv));
         }
         3 => {
@@ -118,7 +121,7 @@ fn anchor(c: &Case, x: i16, y: i16, salt: u32) -> (Anchor, w::AnchorTable) {
             let dv = device_values(salt, salt / 3);
             (
                 Anchor { format: 3, x, y, point: None, xdev: Some(expected_device(dv)), ydev: None },
-                w::AnchorTable::format_3(x, y, Some(wl::Device::new(9, 11, &dv).into()), None),
+                w::AnchorTable::format_3(x, y, Some(wl::Device::new(dv.0, dv.0 + 2, &dv.1).into()), None),
             )
         }
         (3, 0) | (3, 2) => {
@@ -462,7 +465,24 @@ pub fn run_all(run: &Run) {
         "PairPos2": "k class1 x 51 class2 classes; same value styles; coverage {contiguous, runs with gaps}; {1,2} lookups",
         "MarkBasePos": "k marks (one class each) x m bases, every 17th base anchor null; anchor formats 1/2/3 (Device, VariationIndex); {1,2} lookups",
     }));
-    let results: Vec<(usize, Option<Outcome>)> = cs.par_iter().enumerate().map(|(i, c)| (i, run_case(run, c))).collect();
+    let results: Vec<(usize, Option<Outcome>, f64)> = cs
+        .par_iter()
+        .enumerate()
+        .map(|(i, c)| {
+            let t = std::time::Instant::now();
+            let o = run_case(run, c);
+            (i, o, t.elapsed().as_secs_f64())
+        })
+        .collect();
+    if std::env::var("C05_TIMES").is_ok() {
+        let mut t: Vec<(f64, usize)> = results.iter().map(|r| (r.2, r.0)).collect();
+        t.sort_by(|a, b| b.0.partial_cmp(&a.0).unwrap());
+        for (s, i) in t.iter().take(25) {
+            println!("    {:.2}s {:?}", s, cs[*i]);
+        }
+        println!("    total {:.1}s", t.iter().map(|x| x.0).sum::<f64>());
+    }
+    let results: Vec<(usize, Option<Outcome>)> = results.into_iter().map(|r| (r.0, r.1)).collect();
     let mut all = HashSet::new();
     let mut nontrivial = HashSet::new();
     let mut refused = vec![];
